@@ -41,6 +41,21 @@ Definition op_rt (ts : list wtok) : list wtok :=
     else WN 0 :: WB (message_bytes m) ::
          w_pres w_parsed (dlt_message (message_bytes m ++ suffix) None (has_storage m))).
 
+(* 34 BIGREST: the message followed by n zero bytes, n up to beyond 2^32.  The model does not build the
+   buffer: by c01_roundtrip the result on a well-formed message is the message and exactly the bytes
+   that followed, whatever they are, so the model parses the message alone and reports n as remainder
+   (messages that are not well-formed are skipped on both sides). *)
+Definition op_bigrest (ts : list wtok) : list wtok :=
+  run_rd (rlet m := r_msg in rlet n := r_n in rret (m, n)) ts (fun '(m, n) =>
+    w_bool (wf_message m) ++
+    if negb (wf_message m) then []
+    else if message_bytes_overflows m then [WN 1]
+    else WN 0 ::
+         match dlt_message (message_bytes m) None (has_storage m) with
+         | POk pm rest => WN 0 :: w_parsed pm ++ [WN (len rest + n)]
+         | x => w_pres w_parsed x
+         end).
+
 (* 21 PARSE_USE: parse hostile bytes and use the result (C03) *)
 Definition args_of (m : message) : list argument :=
   match m_payload m with PVerbose args => args | _ => [] end.
@@ -335,6 +350,7 @@ Definition run_case (op : N) (ts : list wtok) : list wtok :=
   | 29 => op_streamj ts
   | 32 => op_stats ts
   | 33 => op_scan ts
+  | 34 => op_bigrest ts
   | 40 => op_read ts
   | 41 => op_async ts
   | 42 => run_rd r_arg ts (fun a => w_chk (w_opt w_n) (to_real_value a))
